@@ -47,7 +47,10 @@ def vcase(H, rng, X, cid, kw, init, n_to, chain=None, clock=None, scale=1.0):
     if clock is not None:
         vm.time = clock
     try:
-        ok = rec.fit(n_to, warm=False, with_y=False, init=init)
+        thr = None
+        if scale == 1.0 and clock is None and not chain and rng is not None and rng.random() < 0.3:
+            thr = (2 * int(rng.integers(0, 30)) + 1, 2)        # an absolute threshold (half-integer: never on a lattice value)
+        ok = rec.fit(n_to, warm=False, with_y=False, init=init, thr=thr)
         for n2 in (chain or []):
             if not ok:
                 break
